@@ -561,6 +561,126 @@ def rule_direction(model):
     return r
 
 
+MUTATORS = {'update', 'append', 'extend', 'insert', 'setdefault', 'pop',
+            'popitem', 'clear', 'remove', 'add', 'sort', 'reverse',
+            '__setitem__', '__delitem__'}
+
+
+class _MS(BaseState):
+    def __init__(self, bound=False):
+        self.bound = bound
+
+    def key(self):
+        return self.bound
+
+    def copy(self):
+        n = _MS(self.bound)
+        n.trace = self.trace
+        return n
+
+
+class _MustBind(Domain):
+    """Does every normal exit of a constructor path pass an unconditional
+    `self.<attr> = ...`?"""
+
+    def __init__(self, attr):
+        self.attr = attr
+
+    def raises(self, node, st):
+        return []
+
+    def effects(self, stmt, st):
+        if isinstance(stmt, ast.Assign):
+            for t in stmt.targets:
+                for x in ast.walk(t):
+                    if isinstance(x, ast.Attribute) and \
+                            x.attr == self.attr and \
+                            isinstance(x.value, ast.Name) and \
+                            x.value.id == 'self' and \
+                            isinstance(x.ctx, ast.Store):
+                        st = st.copy()
+                        st.bound = True
+        return st
+
+
+def rule_instance_state(model):
+    r = RuleResult('C02.R6', 'a template variable source that a template '
+                   'modifies in place (self._vars[...] = ..., .update) is '
+                   'the template\'s own object: a mutable class-level '
+                   'default is rebound on every constructor path before '
+                   'it can be modified (otherwise var() on one template '
+                   'defines names in every other template)')
+    S = model.cls('DT_String', 'String')
+    classes = [S] + list(model.subclasses(S))
+    # attributes mutated in place through self
+    mutated = {}
+    for c in classes:
+        for fi in c.methods.values():
+            for n in own_nodes(fi.node):
+                tgt = None
+                if isinstance(n, ast.Subscript) and isinstance(
+                        n.ctx, (ast.Store, ast.Del)):
+                    tgt = n.value
+                elif isinstance(n, ast.Call) and isinstance(
+                        n.func, ast.Attribute) and n.func.attr in MUTATORS:
+                    tgt = n.func.value
+                if isinstance(tgt, ast.Attribute) and isinstance(
+                        tgt.value, ast.Name) and tgt.value.id == 'self':
+                    mutated.setdefault(tgt.attr, []).append((fi, n))
+    init = model.lookup_method(S, 'initvars')
+    ctor = model.lookup_method(S, '__init__')
+    if init is None or ctor is None:
+        raise AnalysisError('String.initvars / __init__ not found')
+    # the namespace sources: attributes of the template pushed by __call__
+    call = model.lookup_method(S, '__call__')
+    dom0 = PushOrder(model, call)
+    sources = set()
+    for n in own_nodes(call.node):
+        if isinstance(n, ast.Call) and n.args and (
+                (isinstance(n.func, ast.Name) and n.func.id in dom0.aliases)
+                or (isinstance(n.func, ast.Attribute) and
+                    n.func.attr == '_push')):
+            a = n.args[0]
+            exprs = [a]
+            if isinstance(a, ast.Name):
+                exprs = [d for d in model.local_defs(call, a.id)
+                         if isinstance(d, ast.AST)]
+            for e in exprs:
+                if isinstance(e, ast.Attribute) and isinstance(
+                        e.value, ast.Name) and e.value.id == 'self':
+                    sources.add(e.attr)
+    if len(sources) < 3:
+        raise AnalysisError(f'C02.R6: namespace sources {sorted(sources)}')
+    for attr, sites in sorted(mutated.items()):
+        if attr not in sources:
+            continue
+        c, v = model.lookup_class_attr(S, attr)
+        shared = v is not None and isinstance(
+            v, (ast.Dict, ast.List, ast.Set)) or (
+                isinstance(v, ast.Call) and norm(v.func) in (
+                    'dict', 'list', 'set'))
+        # a per-instance binding on every path of the initialiser
+        dom = _MustBind(attr)
+        outs = Interp(dom).run(init.node, _MS())
+        always = all(o.state.bound for o in outs
+                     if o.kind in ('normal', 'return'))
+        r.instance(sites[0][0].where, f'self.{attr} modified in place '
+                   f'({len(sites)} site(s))',
+                   ('class-level default, ' if shared else '') +
+                   ('rebound by initvars on every path' if always
+                    else 'NOT always rebound by initvars'))
+        if shared and not always:
+            r.finding(init.where, f'self.{attr}', f'`{attr}` has a mutable '
+                      'class-level default that initvars does not replace '
+                      'on every path, and is modified in place through '
+                      f'self ({sites[0][0].where}): the change shows in '
+                      'every template (a variable set with var() on one '
+                      'template outranks the client, mapping and defaults '
+                      'of all others)', node=init.node, ctx=init)
+    r.require_floor(1)
+    return r
+
+
 def rule_scoping(model):
     from . import c08
     r = RuleResult('C02.R5', 'bindings of in/with/let/if/try blocks are '
@@ -585,7 +705,8 @@ def _inl(rule):
 
 
 INLINED_VIEW = True
-RULES_PLAIN = [rule_push_order, rule_ctor, rule_call_flag, rule_direction, rule_scoping]
+RULES_PLAIN = [rule_push_order, rule_ctor, rule_call_flag, rule_direction,
+               rule_scoping, rule_instance_state]
 RULES = [_inl(r_) for r_ in RULES_PLAIN] if INLINED_VIEW else RULES_PLAIN
 EXPLANATION = (
     'Forward dataflow of the precedence class of every namespace push along '
